@@ -170,7 +170,9 @@ def main(tier):
     chk = Check('C12', tier, '4/C12')
     jobs = [(job_ps_observers, (5, 2, 1)), (job_ps_observers, (4, 3, 2)), (job_field_observers, (4, 12, 5, (1, 0))), (job_field_observers, (4, 8, 0, (0,))), (job_h5_observers, (4, 2, 12, 2)),
             (job_map_observers, (8, 4, 1)), (job_map_observers, (8, 2, 2)), (job_map_observers, (8, 4, 3)), (job_drf_noninterference, (8, 4, 'drfsin')), (job_drf_noninterference, (8, 3, 'drflin'))]
+    import preloop
     jobs += [(job_steps_read_only_the_grid, (8, 2, 4)), (job_steps_read_only_the_grid, (9, 1, 2))]
+    jobs += [(preloop.job_rw_sets, ()), (preloop.job_rw_sets, (5, 1))]      # what an observer computes is a function of what it observes: moments from projection and charges only - not from what an earlier observation left behind
     jobs += mainloop.jobs_for('C12', tier)
     K = 2 if tier == 'quick' else 3
     chk.bounds = {'frame conditions': 'write sets of symbolic runs of every observer call on small grids (4-8), all data symbolic', 'schedule independence': 'all paths of main\'s loop with <= %d iterations; symbolic cadences and presence flags' % K}
